@@ -1545,6 +1545,10 @@ int Ym2612::reInit(int clock, int rate)
 
 	// Clear the state struct.
 	memset(&d->state, 0, sizeof(d->state));
+	// Clear the rest of the per-chip working state, too
+	d->int_cnt = 0;
+	memset(d->LFO_ENV_UP, 0, sizeof(d->LFO_ENV_UP));
+	memset(d->LFO_FREQ_UP, 0, sizeof(d->LFO_FREQ_UP));
 	d->state.Clock = clock;
 	d->state.Rate = rate;
 
